@@ -39,6 +39,7 @@ PARTIAL = ['C15_contained / C15_inside_is_read are theorems about the file-syste
 REFUTED = []
 ALWAYS_SEARCH = True
 CASE_TIMEOUT = 20.0
+COQCHK = True
 
 TEX, LATEX = '.tex', '.latex'
 
@@ -326,13 +327,16 @@ def gen_cases(seed, tier):
             cases.append(_case(tree, None, d, True, ch, d, l2t=True))
         cases.append(_case(tree, None, None, True, names, d))        # no directory set
     # 2. standard world at several densities x ways of naming the directory
-    nlay = 10 if quick else 60
+    nlay = 10 if quick else 36
     for i in range(nlay):
         density = [1.0, 0.75, 0.5, 0.3][i % 4]
         raw = std_layout(rnd, density)
-        specs = DIRSPECS if i == 0 else rnd.sample(DIRSPECS, 3 if quick else 6)
+        specs = DIRSPECS if i == 0 else rnd.sample(DIRSPECS, 3 if quick else 5)
         for (cwd, d, base) in specs:
-            tree = mark(copy.deepcopy(raw), base)
+            tree = copy.deepcopy(raw)
+            if cwd:
+                mkdirs(tree, cwd)                      # the current directory must exist
+            tree = mark(tree, base)
             names = gen_names(rnd, tree, base, tier if i < 3 else 'quick', 150 if quick else 1500,
                               cap=700 if quick else None)
             strict = rnd.random() < 0.8
